@@ -1,7 +1,7 @@
 #!/bin/bash
 # usage: tools/sweep_seeds.sh [ids...] — run every kept seeded change against its property's quick check (uses /repo; nothing else may run)
 cd /verif
-ids="$@"; [ -z "$ids" ] && ids=$(cd seeded && ls -d */ | tr -d /)
+ids="$@"; [ -z "$ids" ] && ids=$(cd seeded && ls -d */ | tr -d / | grep -v "^H[0-9]")   # H*: behaviour-preserving refactorings
 for id in $ids; do
   prop=$(python3 -c "import json; print(json.load(open('/verif/seeded/$id/meta.json')).get('property','?'))")
   res=$(tools/try_seed.sh /verif/seeded/$id/patch.diff $prop 2>&1 | tail -3 | tr '\n' ' ')
